@@ -32,6 +32,23 @@ structure Tok where
 /-- `protowire.MaxValidNumber`. -/
 def maxValidNumber : Nat := 2 ^ 29 - 1
 
+/-- The value of one record (the bytes after its tag) and the number of bytes it occupies. -/
+def fieldTok (num typ : Nat) (b : Bytes) : Option (Val × Nat) :=
+  if typ = VarintType then
+    match consumeVarint b with
+    | .error _ => none
+    | .ok (v, m) => some (.varint v, m)
+  else if typ = BytesType then
+    match consumeBytes b with
+    | .error _ => none
+    | .ok (v, m) => some (.bytes v, m)
+  else
+    match consumeFieldValue num typ b with
+    | .error _ => none
+    | .ok m =>
+      some (if typ = Fixed32Type then .fixed32 (b.take 4)
+            else if typ = Fixed64Type then .fixed64 (b.take 8) else .group, m)
+
 /-- Phase 1: split a message into records. `none`: malformed. -/
 def tokenize : Nat → Bytes → Option (List Tok)
   | 0, _ => none
@@ -41,22 +58,9 @@ def tokenize : Nat → Bytes → Option (List Tok)
     | .error _ => none
     | .ok (num, typ, n) =>
       if num > maxValidNumber then none else
-      let b := b.drop n
-      if typ = VarintType then
-        match consumeVarint b with
-        | .error _ => none
-        | .ok (v, m) => (tokenize fuel (b.drop m)).map (⟨num, .varint v⟩ :: ·)
-      else if typ = BytesType then
-        match consumeBytes b with
-        | .error _ => none
-        | .ok (v, m) => (tokenize fuel (b.drop m)).map (⟨num, .bytes v⟩ :: ·)
-      else
-        match consumeFieldValue num typ b with
-        | .error _ => none
-        | .ok m =>
-          let v : Val := if typ = Fixed32Type then .fixed32 (b.take 4)
-                         else if typ = Fixed64Type then .fixed64 (b.take 8) else .group
-          (tokenize fuel (b.drop m)).map (⟨num, v⟩ :: ·)
+      match fieldTok num typ (b.drop n) with
+      | none => none
+      | some (v, m) => (tokenize fuel ((b.drop n).drop m)).map (⟨num, v⟩ :: ·)
 
 structure Details where
   cert : Bytes := []
